@@ -195,6 +195,15 @@ pub fn check_case(case: &Case, st: &mut Stats) -> Result<(), String> {
     let src = if case.wrap.rem_euclid(4) != 3 { case.src.with_res(res) } else { case.src.clone() };
     let (lon, lat, class) = src.lonlat()?;
     let p = vec_of_lonlat(lon, lat);
+    // one time in four the same point is first looked up at another resolution (choice derived from the case):
+    // the answer must contain the point whatever was asked just before
+    let sel = (case.lon2.to_bits() >> 9) % 16;
+    if sel < 4 {
+        let other = if sel < 3 { (res + 1 + ((case.lon2.to_bits() >> 14) % 6) as i32).min(29) } else { (res - 1 - ((case.lon2.to_bits() >> 14) % 3) as i32).max(0) };
+        if other != res {
+            let _ = a5::lonlat_to_cell(api::lonlat(lon, lat), other);
+        }
+    }
     let (id, _c, branch) = lookup(lon, lat, res)?;
     let v = contain::contains(id, p)?;
     if !v.contained {
